@@ -108,6 +108,22 @@ def cond_inf(D):
     except Exception:
         return math.inf
 
+def needs_exchange(D, m1):
+    """coverage statistic only (never a verdict): does elimination with magnitude pivoting inside the band window
+    exchange rows at some stage of this (exact) matrix?"""
+    n = len(D)
+    M = [[Fraction(x) for x in r] for r in D]
+    for k in range(n):
+        hi = min(n, k + m1 + 1)
+        p = max(range(k, hi), key=lambda i: (abs(M[i][k]), -i))
+        if M[p][k] == 0: return False
+        if p != k: return True
+        for i in range(k + 1, hi):
+            f = M[i][k] / M[k][k]
+            if f != 0:
+                for j in range(k, n): M[i][j] -= f * M[k][j]
+    return False
+
 class Unspecified(Exception):
     """the property makes no demand on this step: accept the implementation's answer, resynchronise"""
 
@@ -379,6 +395,7 @@ def walk(elt, B, ops, items, stats=None):
                     r = [b[i] - sum(D[i][j] * x[j] for j in range(nn)) for i in range(nn)]
                     if any(v != 0 for v in r): return "%s: exact residual b - D x = %s on a nonsingular system" % (what, [str(v) for v in r])
                     bump("solve-exact")
+                    if needs_exchange(D, ref.m1): bump("solve-exact-with-row-exchange")
                 else: bump("solve-singular")
             else:
                 if all(isfinite(t) for r in D for t in r) and cond_inf(D) <= COND_LIMIT:
